@@ -4,7 +4,7 @@ package actionlint
 
 // C17 — filter patterns are validated exactly by the documented glob syntax.
 //
-// Space: all strings of length <= n over a 20-symbol alphabet (every special character plus
+// Space: all strings of length <= n over a 21-symbol alphabet (every special character plus
 // representatives of ordinary, ref-forbidden, whitespace, line-break, control and non-ASCII
 // characters), both validators. Oracle: reference validator written from the property statement
 // and DESIGN appendix B (c17Ref), the ref => path implication, and the column oracle.
@@ -18,7 +18,7 @@ import (
 	"unicode/utf8"
 )
 
-var c17Alphabet = []rune{'*', '?', '+', '[', ']', '-', '!', '\\', '/', '.', 'a', 'b', ' ', '~', '\n', '\r', 'é', 0x01, '\t', 0xFEFF}
+var c17Alphabet = []rune{'*', '?', '+', '[', ']', '-', '!', '\\', '/', '.', 'a', 'b', ' ', '~', '\n', '\r', 'é', 0x01, '\t', 0xFEFF, 0x9C}
 
 type c17Verdict int
 
@@ -326,7 +326,7 @@ func c17YAMLQuote(pat string) string {
 			b.WriteString(`\n`)
 		case c == '\r':
 			b.WriteString(`\r`)
-		case c < 0x20:
+		case c < 0x20 || (c >= 0x7f && c < 0xa0):
 			fmt.Fprintf(&b, `\x%02x`, c)
 		default:
 			b.WriteRune(c)
@@ -440,8 +440,8 @@ func TestVerifC17(t *testing.T) {
 	r.Bounds["max_length"] = n
 	r.Bounds["alphabet"] = string(c17Alphabet)
 	r.Bounds["e2e_max_length"] = 3
-	r.Extra["rule"] = "all strings of length <= n over the 20-symbol alphabet, ValidateRefGlob and ValidatePathGlob each compared with the reference validator (accept/reject), ref=>path implication, column oracle; all strings <= 3 (also followed by / preceded by a ${{ }} placeholder, which is ordinary text there) additionally through Linter.Lint in 7 layouts (the same string under ref and path keys of one, two and three events, both orders; lists with empty / null / non-scalar and valid elements around the pattern; push, pull_request, pull_request_target, merge_group, workflow_run); class = (validator, reference verdict, reference reason); non-trivial = invalid by the reference"
-	r.Extra["assumptions"] = []string{"characters outside the alphabet are represented by a, b (ordinary), space/~ (ref-forbidden), \\x01 and TAB (control characters below and next to the line breaks), é (non-ASCII), U+FEFF (a character the scanner library treats specially at the head of its input)", "appendix B don't-care classes are not compared"}
+	r.Extra["rule"] = "all strings of length <= n over the 21-symbol alphabet, ValidateRefGlob and ValidatePathGlob each compared with the reference validator (accept/reject), ref=>path implication, column oracle; all strings <= 3 (also followed by / preceded by a ${{ }} placeholder, which is ordinary text there) additionally through Linter.Lint in 7 layouts (the same string under ref and path keys of one, two and three events, both orders; lists with empty / null / non-scalar and valid elements around the pattern; push, pull_request, pull_request_target, merge_group, workflow_run); class = (validator, reference verdict, reference reason); non-trivial = invalid by the reference"
+	r.Extra["assumptions"] = []string{"characters outside the alphabet are represented by a, b (ordinary), space/~ (ref-forbidden), \\x01 and TAB (control characters below and next to the line breaks), é (non-ASCII), U+FEFF (a character the scanner library treats specially at the head of its input), U+009C (a C1 control character: ordinary in a ref name, only ASCII controls are forbidden)", "appendix B don't-care classes are not compared"}
 
 	if raw := vReplayInput(); raw != nil {
 		var c struct {
